@@ -100,38 +100,48 @@ def container (timebase : Nat) (bodies : List (List Nat)) : List Nat :=
 /-! ### play_from (`Track::play_from`) -/
 
 structure PfAcc where
-  out : List Event      -- reversed
-  cc : List (Nat × Int) -- association list controller → latest value (only 0..127 are reachable)
-  voice : Int
-  ch : Int
+  out : List Event                 -- reversed
+  cc : List ((Nat × Nat) × Int)    -- (channel, controller) → latest value (channels 0..15, controllers 0..127)
+  voice : List (Nat × Int)         -- channel → latest program
 
-def setCc (l : List (Nat × Int)) (k : Nat) (v : Int) : List (Nat × Int) :=
-  (k, v) :: l.filter (fun p => p.1 != k)
+def setKey {κ : Type} [BEq κ] (l : List (κ × Int)) (k : κ) (v : Int) : List (κ × Int) :=
+  (k, v) :: l.filter (fun p => !(p.1 == k))
 
 def pfStep (p : Int) (a : PfAcc) (e : Event) : PfAcc :=
   let t := e.time - p
   match e.kind with
   | .metaEv | .sysex => { a with out := { e with time := if t < 0 then 0 else t } :: a.out }
   | .noteOn => if t < 0 then a else { a with out := { e with time := t } :: a.out }
-  | .voice => if t < 0 then { a with voice := e.v1, ch := e.ch } else { a with out := { e with time := t } :: a.out }
+  | .voice =>
+    if t < 0 then (if 0 ≤ e.ch ∧ e.ch < 16 then { a with voice := setKey a.voice e.ch.toNat e.v1 } else a)
+    else { a with out := { e with time := t } :: a.out }
   | .cc =>
-    if t < 0 then (if 0 ≤ e.v1 ∧ e.v1 < 128 then { a with cc := setCc a.cc e.v1.toNat e.v2, ch := e.ch } else a)
+    if t < 0 then (if 0 ≤ e.v1 ∧ e.v1 < 128 ∧ 0 ≤ e.ch ∧ e.ch < 16 then { a with cc := setKey a.cc (e.ch.toNat, e.v1.toNat) e.v2 } else a)
     else { a with out := { e with time := t } :: a.out }
   | _ => a
 
 def ccEvent (ch : Int) (no : Nat) (v : Int) : Event := ⟨.cc, 0, ch, no, v, 0, []⟩
 def voiceEvent (ch : Int) (v : Int) : Event := ⟨.voice, 0, ch, v, 0, 0, []⟩
 
-def restoreCc (ch : Int) (cc : List (Nat × Int)) : List Event :=
+/-- the values re-issued for one channel: its controllers in number order, then its program -/
+def restoreCh (a : PfAcc) (ch : Nat) : List Event :=
   (List.range 128).filterMap (fun no =>
-    match cc.lookup no with
+    match a.cc.lookup (ch, no) with
     | some v => if v < 0 then none else some (ccEvent ch no v)
-    | none => none)
+    | none => none) ++
+  (match a.voice.lookup ch with
+   | some v => if v ≥ 0 then [voiceEvent ch v] else []
+   | none => [])
 
-/-- `Track::play_from` (events restored ahead of the remaining ones) -/
+def restoreAll (a : PfAcc) : List Event := ((List.range 16).map (restoreCh a)).flatten
+
+/-- the scan of `Track::play_from`: the events are first put in time order (stable), so the values remembered for a channel are
+    the latest in time before the point -/
+def pfAcc (p : Int) (es : List Event) : PfAcc := (sortByTime es).foldl (pfStep p) ⟨[], [], []⟩
+
+/-- `Track::play_from` (values restored ahead of the remaining events) -/
 def playFrom (p : Int) (es : List Event) : List Event :=
-  let a := es.foldl (pfStep p) ⟨[], [], -1, 0⟩
-  restoreCc a.ch a.cc ++ (if a.voice ≥ 0 then [voiceEvent a.ch a.voice] else []) ++ a.out.reverse
+  restoreAll (pfAcc p es) ++ (pfAcc p es).out.reverse
 
 /-- the bodies `generate` writes, in track order: play_from (when set), normalise, sort, encode -/
 def songBodies (playfrom : Int) (tracks : List (List Event)) : List (List Nat) :=
